@@ -256,3 +256,62 @@ def render(T):
     d("unix_os", "list string", coq_strs(T["unix_os"]))
     d("other_exts", "list string", coq_strs(T["other_exts"]), "go/build fileListForExt")
     return "\n".join(L) + "\n"
+
+
+# ---- phase 4: the post-load tweak table (build/context.go applyPostloadTweaks) -----------------
+
+def extract_post(repo):
+    """[(import path, (clear GoFiles?, excluded GoFiles), (clear TestGoFiles?, excluded TestGoFiles))] from the
+    `switch pkg.ImportPath` of applyPostloadTweaks; only the statement shapes
+        pkg.X = []string{} | pkg.X = nil | pkg.X = exclude(pkg.X, "a", ...)          (X = GoFiles | TestGoFiles)
+    are understood, anything else raises ExtractError"""
+    src = strip_go_comments(open(os.path.join(repo, "build", "context.go")).read())
+    body = func_body(src, r"func\s*\(sc\s+simpleCtx\)\s*applyPostloadTweaks\s*\(", "applyPostloadTweaks")
+    m = re.search(r"switch\s+pkg\.ImportPath\s*\{", body)
+    if not m:
+        raise ExtractError("applyPostloadTweaks: no switch on pkg.ImportPath")
+    sw = func_body(body[m.start():], r"switch\s+pkg\.ImportPath\s*\{", "switch pkg.ImportPath")
+    parts = re.split(r"\bcase\b", sw[1:-1])
+    if parts[0].strip():
+        raise ExtractError("applyPostloadTweaks: statements before the first case: %r" % parts[0].strip()[:60])
+    table = []
+    for part in parts[1:]:
+        head, _, stmts = part.partition(":")
+        paths = re.findall(r'"([^"]*)"', head)
+        if not paths or re.sub(r'"[^"]*"|[,\s]', "", head):
+            raise ExtractError("applyPostloadTweaks: unexpected case label %r" % head.strip())
+        tw = {"GoFiles": [False, []], "TestGoFiles": [False, []]}
+        for st in [s.strip() for s in stmts.strip().split("\n") if s.strip()]:
+            m1 = re.fullmatch(r"pkg\.(GoFiles|TestGoFiles)\s*=\s*(\[\]string\{\}|nil)", st)
+            m2 = re.fullmatch(r"pkg\.(GoFiles|TestGoFiles)\s*=\s*exclude\(pkg\.(GoFiles|TestGoFiles)((?:\s*,\s*\"[^\"]*\")+)\s*\)", st)
+            if m1:
+                tw[m1.group(1)] = [True, []]
+            elif m2 and m2.group(1) == m2.group(2):
+                tw[m2.group(1)][1] += re.findall(r'"([^"]*)"', m2.group(3))
+            else:
+                raise ExtractError("applyPostloadTweaks: statement not understood: %r" % st[:80])
+        for p in paths:
+            table.append((p, tuple(tw["GoFiles"]), tuple(tw["TestGoFiles"])))
+    rest = body[body.index(sw) + len(sw):]
+    upd = re.findall(r"pkg\.(\w+)\s*,\s*pkg\.(\w+)\s*=\s*updateImports\(pkg\.(\w+)\s*,\s*pkg\.(\w+)\)", rest)
+    if sorted(upd) != sorted([("Imports", "ImportPos", "GoFiles", "ImportPos"), ("TestImports", "TestImportPos", "TestGoFiles", "TestImportPos"),
+                              ("XTestImports", "XTestImportPos", "XTestGoFiles", "XTestImportPos")]):
+        raise ExtractError("applyPostloadTweaks: the updateImports calls changed: %r" % (upd,))
+    guards = re.findall(r"if\s+sc\.(isVirtual|noPostTweaks)\s*\{\s*return\s+pkg\s*\}", body[:body.index(sw)])
+    if sorted(guards) != ["isVirtual", "noPostTweaks"]:
+        raise ExtractError("applyPostloadTweaks: the isVirtual / noPostTweaks guards changed: %r" % (guards,))
+    return table
+
+
+def fallback_post():
+    return [("runtime", (True, []), (False, [])), ("runtime/pprof", (True, []), (False, [])), ("sync", (False, ["pool.go"]), (False, [])),
+            ("syscall/js", (True, []), (True, []))]
+
+
+def render_post(table):
+    b = lambda x: "true" if x else "false"
+    ent = "; ".join("(%s, ((%s, %s), (%s, %s)))" % (coq_str(p), b(g[0]), coq_strs(g[1]), b(t[0]), coq_strs(t[1])) for p, g, t in table)
+    return ("(* GENERATED by harness/py/c18_gen.py from build/context.go applyPostloadTweaks on every run. Do not edit. *)\n"
+            "From Coq Require Import List String.\nImport ListNotations.\nLocal Open Scope string_scope.\n\n"
+            "(* import path |-> ((GoFiles cleared?, GoFiles excluded), (TestGoFiles cleared?, TestGoFiles excluded)) *)\n"
+            "Definition post_tweaks : list (string * ((bool * list string) * (bool * list string))) :=\n  [%s].\n" % ent)
